@@ -12,7 +12,7 @@ ToSet(s) == {s[i] : i \in DOMAIN s}
 StMatch(st) == /\ primFail' = st.primFail
                /\ \A kd \in Kinds : /\ {k \in Keys : prim'[kd][k]} = ToSet(st.prim[kd])
                                     /\ \A k \in Keys : rep'[kd][k] = st.rep[kd][k]
-ResMatch == /\ last'.ok = E.ok /\ last'.bytes = E.bytes /\ last'.listed = E.listed
+ResMatch == /\ last'.alive = E.alive /\ last'.ok = E.ok /\ last'.bytes = E.bytes /\ last'.listed = E.listed
             /\ Len(last'.calls) = Len(E.calls)
             /\ \A i \in 1..Len(E.calls) : /\ last'.calls[i].b = E.calls[i].b /\ last'.calls[i].op = E.calls[i].op
                                           /\ last'.calls[i].k = E.calls[i].k /\ last'.calls[i].rng = E.calls[i].rng
